@@ -173,7 +173,7 @@ fn one(plan: &Plan, pos: Option<u64>, calls: &mut u64, rep: &mut RunReport, know
     rep.log_hash ^= fs.hash().rotate_left((pos.unwrap_or(63) % 64) as u32);
     match r {
         Caught::Ok(o) => o,
-        Caught::Panic(p) => Some(Outcome { class: format!("panic:{}", normalise(&p)), detail: p }),
+        Caught::Panic(p) => Some(Outcome { class: panic_class(&p), detail: p }),
         Caught::Budget => None,
     }
 }
